@@ -107,7 +107,7 @@ func run(j job) (r result) {
 	}()
 	to := time.Duration(j.TimeoutMs) * time.Millisecond
 	if to <= 0 {
-		to = 20 * time.Second
+		to = 120 * time.Second
 	}
 	select {
 	case o := <-done:
